@@ -46,6 +46,10 @@ SPECS = [
      [("scores", "Arr α"), ("threshold", "α"), ("min_detection_interval", "Nat")], "List Nat"),
 ]
 SPECS.append(
+    ("anomaly_intervals", "skchange/anomaly_detectors/circular_binseg.py", "make_anomaly_intervals",
+     {"starts": "List Nat", "ends": "List Nat", "baseline_n": "Nat"},
+     [("interval_start", "Nat"), ("interval_end", "Nat"), ("min_segment_length", "Nat")], "(List Nat × List Nat)"))
+SPECS.append(
     ("pelt_changepoints", "skchange/change_detectors/pelt.py", "get_changepoints",
      {"changepoints": "List Nat", "i": "Int", "cpt_i": "Nat",
       # bound on the number of iterations of the `while` loop (the loop variable strictly decreases from len - 1 to -1);
@@ -70,6 +74,7 @@ class Fn:
         for p, t in params:
             self.types[p] = t
         self.generic = any("α" in t for _, t in params)
+        self.extra = []  # targets of the enclosing loops: further parameters of the definitions generated for an inner loop
         self.aux = []  # generated auxiliary definitions (bodies, loops)
         self.k = 0
         self.kl = 0  # loops are numbered separately so that their names do not depend on temporaries
@@ -82,10 +87,11 @@ class Fn:
                 out.append(f"({nm(p)} : Nat → {t[4:]}) ({nm(p)}_n : Nat)")
             else:
                 out.append(f"({nm(p)} : {t})")
+        out += [f"({nm(v)} : {t})" for v, t in self.extra]
         return (GENERIC if self.generic else "") + " ".join(out)
 
     def pargs(self):
-        return " ".join(f"{nm(p)} {nm(p)}_n" if t.startswith("Arr ") else nm(p) for p, t in self.params)
+        return " ".join([f"{nm(p)} {nm(p)}_n" if t.startswith("Arr ") else nm(p) for p, t in self.params] + [nm(v) for v, _ in self.extra])
 
     # ---- expressions -------------------------------------------------------------------------
     def typeof(self, e):
@@ -106,6 +112,10 @@ class Fn:
             return CALLABLE[e.func.id][2]
         if self._is_argmax_slice(e):
             return "Nat"
+        if self._is_range(e):
+            return "List Nat"
+        if self._is_np_array_of_list(e) is not None:
+            return self.typeof(self._is_np_array_of_list(e))
         if isinstance(e, ast.Subscript) and isinstance(e.value, ast.Name) and isinstance(e.slice, ast.Constant) \
                 and isinstance(e.slice.value, int) and self._ty(e.value.id).startswith("("):
             parts = _split_prod(self._ty(e.value.id))
@@ -150,6 +160,18 @@ class Fn:
             return f"(← {s})"  # None where an int is needed: Python raises -> none
         raise Unsupported(f"cannot use {have} as {want}")
 
+    def _is_range(self, e):
+        return (isinstance(e, ast.Call) and isinstance(e.func, ast.Name) and e.func.id == "range" and len(e.args) in (1, 2)
+                and not e.keywords)
+
+    def _is_np_array_of_list(self, e):
+        """`np.array(xs)` / `np.array(xs, dtype=np.int64)` for a list variable `xs` of naturals: the same sequence"""
+        if (isinstance(e, ast.Call) and isinstance(e.func, ast.Attribute) and isinstance(e.func.value, ast.Name)
+                and e.func.value.id == "np" and e.func.attr == "array" and len(e.args) == 1 and isinstance(e.args[0], ast.Name)
+                and self.types.get(e.args[0].id, "") == "List Nat" and all(k.arg == "dtype" for k in e.keywords)):
+            return e.args[0]
+        return None
+
     def _is_drop_last_reversed(self, e):
         """`np.array(xs[-2::-1])` / `xs[-2::-1]` for a list `xs`: all but the last element, in reverse order"""
         if isinstance(e, ast.Call) and isinstance(e.func, ast.Attribute) and isinstance(e.func.value, ast.Name) \
@@ -181,6 +203,12 @@ class Fn:
             if len(e.args) != len(argt) or e.keywords:
                 raise Unsupported("call arity")
             return f"(← {lean} " + " ".join(self.expr(a, t) for a, t in zip(e.args, argt)) + ")"
+        if self._is_range(e):
+            lo = "0" if len(e.args) == 1 else self.expr(e.args[0], "Nat")
+            hi = self.expr(e.args[-1], "Nat")
+            return f"(List.range' {lo} ({hi} - {lo}))"
+        if self._is_np_array_of_list(e) is not None and self._is_drop_last_reversed(e) is None:
+            return self._raw(self._is_np_array_of_list(e))
         if self._is_argmax_slice(e):
             a = e.args[0]
             return f"(← pyArgmaxSlice {nm(a.value.id)} {nm(a.value.id)}_n {self.expr(a.slice.lower, 'Nat')} {self.expr(a.slice.upper, 'Nat')})"
@@ -315,8 +343,8 @@ class Fn:
             elif isinstance(st, ast.For):
                 if st.orelse:
                     raise Unsupported("for-else")
-                if any(isinstance(n, (ast.For, ast.While, ast.Break, ast.Continue, ast.Return)) for b in st.body for n in ast.walk(b)):
-                    raise Unsupported("nested loop / break / continue / return inside a loop")
+                if any(isinstance(n, (ast.While, ast.Break, ast.Continue, ast.Return)) for b in st.body for n in ast.walk(b)):
+                    raise Unsupported("while / break / continue / return inside a for loop")
                 k = self.kl
                 self.kl += 1
                 it, tg = st.iter, st.target
@@ -345,8 +373,10 @@ class Fn:
                             continue
                     if other is not st:
                         outside |= {x.id for x in ast.walk(other) if isinstance(x, ast.Name)}
-                local = [v for v in self.assigned(st.body) if v not in outside and v not in (iv, vv)]
-                state = [v for v in state if v not in local]
+                local = [v for v in self.assigned(st.body) if v not in outside and v not in (iv, vv)] if st in self.fn.body else []
+                inner_targets = {x.id for b in st.body for n in ast.walk(b) if isinstance(n, ast.For) for x in ast.walk(n.target)
+                                 if isinstance(x, ast.Name)}
+                state = [v for v in state if v not in local and v not in inner_targets]
                 missing = [v for v in state if v not in declared]
                 if missing:
                     raise Unsupported(f"loop state variable(s) {missing} not initialised before the loop")
@@ -355,7 +385,13 @@ class Fn:
                 args = self.psig() + " " + (f"({nm(iv)} : Nat) " if iv else "") + f"({nm(vv)} : {el}) " + " ".join(f"({nm(v)}0 : {self._ty(v)})" for v in state)
                 inner_declared = set(state)
                 body = [f"  let mut {nm(v)} := {nm(v)}0" for v in state]
-                body += self.stmts(st.body, 1, state, inner_declared)
+                saved = list(self.extra)
+                self.extra = saved + ([(iv, "Nat")] if iv else []) + [(vv, el)]
+                try:
+                    inner = self.stmts(st.body, 1, state, inner_declared)
+                finally:
+                    self.extra = saved
+                body += inner
                 body.append(f"  return ({pat})")
                 self.aux.append(f"def {self.lean}body{k} {args} : Option ({sty_t}) := do\n" + "\n".join(body))
                 pa = self.pargs()
